@@ -1,7 +1,8 @@
 """C11 - the interpreter stack over the whole pipeline parse() -> emit() (never an internal error).
 
-parse() turns its own RecursionError into a clean ValueError; emit() recurses over the same block tree unguarded.  So on
-every script parse() accepts, emit() has to get by with the frames parse() got by with.
+parse() turns its own RecursionError into a clean ValueError (_nesting_as_value_error); emit() recurses over the same block
+tree and - since the repair of F-C11-emit-stack-window - does the same.  So on every script the pipeline ends in firmware, in
+a clean ValueError from parse() or in a clean ValueError from emit(); never in a RecursionError.
 
 (a) correspondence: Lang/NestDepth.v with the constants measured on the current source (Gen/NestDepth.v), extracted, against
     the real stages - the deepest frame of parse() / emit() (sys.setprofile) on generated program trees, and the outcome of
@@ -9,11 +10,12 @@ every script parse() accepts, emit() has to get by with the frames parse() got b
 (b) oracle on the implementation: for ladder families of every block slot and mixtures of them, around every simple
     statement, with one and with several statements per level, the deepest ladder parse() still accepts is searched (under
     a room of a few dozen frames: the text of a ladder grows with the square of its depth, its parse time with the cube) -
-    emit() must succeed there and on the two ladders below; every rejection above must be a ValueError.  A failure is
+    emit() must end in firmware or ValueError there and on the two ladders below; every rejection above must be a ValueError.  A failure is
     carried over to the default recursion limit (room 999 = parse() called at module level of a script) by extrapolating
     the shallowest failing depth measured under two rooms, and the replay is that script.
-Guard: F-C11-emit-stack-window - the four simple statements whose emitter branch is one helper deeper than their parser
-branch (rgb.on(), rgb.off(), motor.backward(), motor.invert()) are not generated in (b).
+No guard: the four simple statements of the repaired finding F-C11-emit-stack-window (rgb.on(), rgb.off(), motor.backward(),
+motor.invert() - their emitter branch is deeper than their parser branch, so emit() runs out of frames on ladders parse()
+still accepts) are generated everywhere, in (a) and in (b); the witness of the finding is replayed first (replay_fixed).
 """
 from __future__ import annotations
 
@@ -22,10 +24,11 @@ import concurrent.futures as CF
 from harness import common as C
 from harness import c11_nest as N
 
+# the statements of the repaired finding F-C11-emit-stack-window: generated like every other one (extra families around them)
 FAT = {"rgb.on()", "rgb.off()", "motor.backward()", "motor.invert()"}
 FAT_IDX = [i for i, t in enumerate(N.LEAVES) if t in FAT]
-THIN_IDX = [i for i, t in enumerate(N.LEAVES) if t not in FAT]
-FREE_IDX = [i for i in THIN_IDX if N.LEAVES[i] not in N.NEEDS_LOOP and N.LEAVES[i] not in N.NEEDS_DEF]
+ALL_IDX = list(range(len(N.LEAVES)))
+FREE_IDX = [i for i in ALL_IDX if N.LEAVES[i] not in N.NEEDS_LOOP and N.LEAVES[i] not in N.NEEDS_DEF]
 DEFAULT_ROOM = 999          # frames parse() / emit() have when a script calls them at module level (limit 1000)
 IMPL = "c11_nest_impl.py"
 
@@ -34,7 +37,7 @@ def enc(tree):
     return [[0, t[1]] if t[0] == "L" else [1, N.SLOTS.index(t[1]), enc(t[2])] for t in tree]
 
 
-def gen_tree(rng, depth, top=True, in_loop=False, in_def=False, fat_ok=True):
+def gen_tree(rng, depth, top=True, in_loop=False, in_def=False):
     """a random statement list whose deepest path has about `depth` blocks"""
     out = []
     n = rng.choice([1, 1, 2, 3])
@@ -42,7 +45,7 @@ def gen_tree(rng, depth, top=True, in_loop=False, in_def=False, fat_ok=True):
     for j in range(n):
         d = depth if j == deep_at else rng.randint(0, max(0, depth // 3))
         if d <= 0:
-            pool = [i for i in (range(len(N.LEAVES)) if fat_ok else THIN_IDX)
+            pool = [i for i in ALL_IDX
                     if (in_loop or N.LEAVES[i] not in N.NEEDS_LOOP) and (in_def or N.LEAVES[i] not in N.NEEDS_DEF) and N.LEAVES[i] not in N.STATEFUL]
             out.append(["L", rng.choice(pool)])
             continue
@@ -50,7 +53,7 @@ def gen_tree(rng, depth, top=True, in_loop=False, in_def=False, fat_ok=True):
         if top and rng.random() < 0.3:
             slots = ["def"] if rng.random() < 0.5 else ["main"]
         slot = rng.choice(slots)
-        out.append(["B", slot, gen_tree(rng, d - 1, False, in_loop or slot in ("while", "for"), in_def or slot == "def", fat_ok)])
+        out.append(["B", slot, gen_tree(rng, d - 1, False, in_loop or slot in ("while", "for"), in_def or slot == "def")])
     if top:
         # at most one main loop, and nothing but defs may follow it in the text (render puts it last)
         mains = [s for s in out if s[0] == "B" and s[1] == "main"]
@@ -81,7 +84,7 @@ def families(rng, thorough):
             fams.append(([top, s], 1, []))
             fams.append(([top, s], 25, [1, 30]))
     # every simple statement at the bottom of an if-ladder (loop / function statements under while / def) and of a rotating mixture
-    for k, leaf in enumerate(THIN_IDX):
+    for k, leaf in enumerate(ALL_IDX):
         t = N.LEAVES[leaf]
         pat = ["while"] if t in N.NEEDS_LOOP else ["def", "if"] if t in N.NEEDS_DEF else ["if"]
         fams.append((pat, leaf, []))
@@ -99,10 +102,18 @@ def families(rng, thorough):
         if rng.random() < 0.3:
             pat = [rng.choice(["main", "def"])] + pat
         side = [rng.choice(FREE_IDX) for _ in range(rng.randint(1, 4))]
-        leaves = [i for i in THIN_IDX if leaf_pattern_ok(pat, i)]
+        leaves = [i for i in ALL_IDX if leaf_pattern_ok(pat, i)]
         fams.append((pat, rng.choice(leaves), side))
     for s in inner:
         fams.append(([s], rng.choice(FREE_IDX), [rng.choice(FREE_IDX), rng.choice(FREE_IDX)]))
+    # the region the repaired finding used to exclude: every slot (and the two top slots) around each of its four statements,
+    # alone and with side statements
+    for j, leaf in enumerate(FAT_IDX):
+        for s in inner:
+            fams.append(([s], leaf, []))
+        fams.append((["main", inner[j % len(inner)]], leaf, []))
+        fams.append((["def", inner[(j + 3) % len(inner)]], leaf, [FAT_IDX[(j + 1) % len(FAT_IDX)], 1]))
+        fams.append(([inner[(j + 1) % len(inner)], inner[(j + 4) % len(inner)]], leaf, [FAT_IDX[(j + 2) % len(FAT_IDX)]]))
     return fams
 
 
@@ -201,7 +212,8 @@ def part_a(ctx, stats, rng, thorough):
     for t, nd in zip(trees, rooms):
         if nd is None:
             continue
-        for room in sorted({nd[0], nd[0] - 1, nd[0] + 3}):
+        # parse's need (accepted), one less (clean ValueError from parse), three more, and the two sides of emit's need
+        for room in sorted({nd[0], nd[0] - 1, nd[0] + 3, nd[1], nd[1] - 1}):
             runs.append((t, room, nd))
     got = run_cases([["run", t, room] for t, room, _ in runs])
     mod2 = ctx.model([[103, room, enc(t)] for t, room, _ in runs], unit="C11x") if have_model else [None] * len(runs)
@@ -214,22 +226,20 @@ def part_a(ctx, stats, rng, thorough):
         if g["parse"] not in (None, "ValueError", "SyntaxError"):
             ctx.fail(f"with {room} interpreter frames left parse() ends in {g['parse']} (it needs {nd[0]} frames)",
                      case, "firmware or ValueError", g, key="nest-room-kind")
-        if m is not None and m != [2] and m[2] == 1 and outcome == 0 and room < nd[0]:
+        if m is not None and m != [2] and m[2] == 1 and outcome in (0, 3) and room < nd[0]:
             # parse() got by with fewer frames than its deepest frame: a RecursionError was swallowed by a try / except Exception
             # inside a statement recogniser and the statement went through the fallback path - the model's acceptance (need <= room)
             # is a lower bound of the real one; the oracle (b) searches the real boundary
             stats["nest:parse accepts below its deepest frame (RecursionError swallowed inside a recogniser)"] += 1
         elif m is not None and m != [2] and m[2] != outcome:
-            ctx.disagree("outcome of the pipeline with `room` frames left (0 firmware, 1 clean ValueError, 2 internal error in emit): stack model vs the real stages", case, m[2], g)
+            ctx.disagree("outcome of the pipeline with `room` frames left (0 firmware, 1 clean ValueError from parse, 2 internal error in emit, 3 clean ValueError from emit): stack model vs the real stages", case, m[2], g)
         elif m is not None:
             stats["nest:outcome-equal"] += 1
         if outcome == 2:
-            deepest = set(N.LEAVES[i] for i in _leaves(t))
-            if not (deepest & FAT):
-                ctx.fail(f"emit() raised {g['emit']} on a script parse() accepted, with {room} interpreter frames left for each stage",
-                         case, "firmware (parse accepted the nesting) or a clean ValueError", g, key="nest-window-tree")
-            else:
-                stats["nest:known-window (fat statement, outside the oracle's guard)"] += 1
+            ctx.fail(f"emit() raised {g['emit']} on a script parse() accepted, with {room} interpreter frames left for each stage",
+                     case, "firmware, or a clean ValueError", g, key="nest-window-tree")
+        if outcome == 3 and set(N.LEAVES[i] for i in _leaves(t)) & FAT:
+            stats["nest:clean rejection by emit on a tree with a statement of the repaired finding"] += 1
 
     return n_eval
 
@@ -389,18 +399,44 @@ def _leaves(tree):
 WITNESS = {"pattern": ["if"], "leaf": N.LEAVES.index("rgb.off()"), "side": []}
 
 
-def replay_known(ctx, stats, thorough):
-    """F-C11-emit-stack-window: still failing = on the deepest accepted if-ladder around rgb.off() emit() raises RecursionError"""
+def tables_summary(ctx, stats):
+    """facts about the regenerated tables, from the extracted model (for the evidence only)"""
+    if not ctx.exes.get("C11x"):
+        return
+    m = ctx.model([[104]], unit="C11x")[0]
+    if isinstance(m, list) and len(m) == 3:
+        stats["nest:tables:emit() guarded (observed by the translator)"] = str(bool(m[0]))
+        stats["nest:tables:emit's constants dominated by parse's"] = str(bool(m[1]))
+        stats["nest:tables:statements emit() needs more frames for than parse()"] = str([N.LEAVES[i] for i in m[2] if 0 <= i < len(N.LEAVES)])
+
+
+def replay_fixed(ctx, stats, thorough, entry):
+    """F-C11-emit-stack-window (repaired): a fixed entry suppresses nothing.  Its witness - the deepest if-ladder around
+    rgb.off() that parse() accepts with 80 interpreter frames left (thorough: the 994-level script under the default
+    recursion limit as well) - is replayed; emit() ending in anything but firmware or ValueError is a violation whose replay
+    is the witness.  Returns True when the defect is back."""
     r = C.run_impl(IMPL, {"cases": [["boundary", WITNESS, 80]]})[0]
-    stats["known:F-C11-emit-stack-window:" + str(r["emit"].get(str(r["dacc"])))] += 1
-    if r["dacc"] is None or r["emit"].get(str(r["dacc"])) in (None, "ValueError"):
-        return None
-    below = r["emit"].get(str(r["dacc"] - 1))
-    line = (f"F-C11-emit-stack-window: {r['dacc']} nested `if` around rgb.off() with 80 interpreter frames left: parse() accepts, emit() raises "
-            f"{r['emit'][str(r['dacc'])]} (one level less: {'firmware' if below is None else below}; deeper: parse() raises {', '.join(r['rejections']) or '-'})")
+    stats["fixed-witness:F-C11-emit-stack-window:" + str(r["emit"].get(str(r["dacc"])) or "firmware")] += 1
+    back = False
+    bad = {d: k for d, k in r["emit"].items() if k not in (None, "ValueError", "SyntaxError") and not str(k).startswith("parse:")} if r["dacc"] else {}
+    if bad:
+        back = True
+        d = max(int(x) for x in bad)
+        below = r["emit"].get(str(d - 1))
+        ctx.fail(f"the repaired defect F-C11-emit-stack-window is back: {d} nested `if` around rgb.off() with 80 interpreter frames left: parse() accepts, emit() raises "
+                 f"{bad[str(d)]} (one level less: {'firmware' if below is None else below}; deeper: parse() raises {', '.join(r['rejections']) or '-'}) ({entry.get('fixed', '')})",
+                 {"kind": "nesting-ladder", "finding": "F-C11-emit-stack-window", "pattern": ["if"], "leaf": "rgb.off()", "side": [], "room": 80, "depth": d,
+                  "text": deep_text(WITNESS, d)},
+                 "firmware source, or ValueError", r, key="fixed:F-C11-emit-stack-window")
     if thorough:
-        d = DEFAULT_ROOM - (80 - r["dacc"])
-        out = C.run_impl(IMPL, {"cases": [["run", deep_text(WITNESS, d), DEFAULT_ROOM]]}, timeout=1800)[0]
-        stats["known:F-C11-emit-stack-window:default-limit:" + str(out["emit"])] += 1
-        line += f"; under the default recursion limit the same at {d} levels: parse {out['parse'] or 'accepts'}, emit {out['emit'] or 'ok'}"
-    return line
+        for d in (DEFAULT_ROOM - 5, DEFAULT_ROOM - 6):          # 994 levels (the witness of the finding), 993
+            out = C.run_impl(IMPL, {"cases": [["run", deep_text(WITNESS, d), DEFAULT_ROOM]]}, timeout=1800)[0]
+            stats[f"fixed-witness:F-C11-emit-stack-window:default-limit:{d} levels:parse {out['parse'] or 'accepts'}, emit {out['emit'] or ('firmware' if out['parse'] is None else '-')}"] += 1
+            if out["parse"] not in (None, "ValueError", "SyntaxError") or out["emit"] not in (None, "ValueError", "SyntaxError"):
+                back = True
+                ctx.fail(f"the repaired defect F-C11-emit-stack-window is back: emit(parse(text)) at module level under the default recursion limit, {d} nested `if` around rgb.off(): "
+                         f"parse {out['parse'] or 'accepts'}, emit raises {out['emit']} ({entry.get('fixed', '')})",
+                         {"kind": "nesting-ladder-default-limit", "finding": "F-C11-emit-stack-window", "pattern": ["if"], "leaf": "rgb.off()", "depth": d, "room": DEFAULT_ROOM,
+                          "text": deep_text(WITNESS, d)},
+                         "firmware source, or ValueError", out, key="fixed:F-C11-emit-stack-window:default-limit")
+    return back
